@@ -91,3 +91,13 @@ func NewJWSCompact(protected jws.Headers, payload []byte, signer Signer, between
 
 	return s.SerializeCompact(detached)
 }
+
+// NewJWSCompactUnprotected is NewJWSCompact with unprotected headers passed to internal/jws.NewJWS.
+func NewJWSCompactUnprotected(protected, unprotected jws.Headers, payload []byte, signer Signer, detached bool) (string, error) {
+	s, err := internaljws.NewJWS(protected, unprotected, payload, signer)
+	if err != nil {
+		return "", err
+	}
+
+	return s.SerializeCompact(detached)
+}
